@@ -50,7 +50,7 @@ def _select_all(pid=None, tier='quick', fn_key=None):
     for h in load_harnesses():
         if h.get('disabled'):
             continue
-        if pid is not None and h.get('property') != pid:
+        if pid is not None and h.get('property') != pid and pid not in h.get('also', []):
             # the A1 axiom cross-checks (primitive integer specs the Verus proofs assume) ride along with the
             # properties whose proofs lean on them most, and with every property in the thorough tier
             if not (h.get('property') == 'A1' and (pid in A1_WITH or (tier == 'thorough' and pid in A1_THOROUGH))):
